@@ -14,7 +14,8 @@ from .symex import (Exec, Frame, ReturnSignal, RaiseSignal, PathEnd, Infeasible,
 
 class Contract:
     def __init__(self, qualname, setup=None, requires=(), ensures=(), raises=None, modifies=(),
-                 result=None, inline=False, loops=None, notes="", ghost=None, pure=False, dispatch=None):
+                 result=None, inline=False, loops=None, notes="", ghost=None, pure=False, dispatch=None,
+                 expose_locals=()):
         self.qualname = qualname
         self.setup = setup              # callable(S) -> dict of symbolic arguments (for proving the function)
         self.requires = list(requires)
@@ -29,6 +30,9 @@ class Contract:
         self.pure = pure
         self.dispatch = dispatch        # callable(bound args) -> variant suffix selecting the contract at call sites
         self.native_ghost = ""          # python source defining ghost(env) for the native replay
+        # locals of the function at its (normal) exit made visible to the postconditions of the *proof* as
+        # local_<name> (ghost access for guided clauses: never part of the contract seen by callers)
+        self.expose_locals = tuple(expose_locals)
 
     def named(self, clauses, prefix):
         """[(name, clause text)]; guided clauses (name, body, {forall: {v: range}, use: [...]}) are rendered as the
@@ -506,6 +510,9 @@ def verify_function(repo, registry, qualname, max_paths=400, post_hooks=(), fixe
             if outcome[0] == "return":
                 cenv = dict(env)
                 cenv["result"] = outcome[1]
+                for ln in c.expose_locals:
+                    if ln in getattr(ex, "exit_env", {}):
+                        cenv["local_" + ln] = ex.exit_env[ln]
                 if c.ghost:
                     c.ghost(sfac, cenv)      # ghost names may depend on what the execution recorded
                 for (nm, cl) in c.named(c.ensures, "ensures"):
